@@ -240,11 +240,24 @@ pub struct Stats {
 
 /// `n` tiny functions (count LEB boundaries) with bodies padded to `pad` bytes (size LEB boundaries)
 pub fn many(n: usize, pad: usize) -> Vec<u8> {
+    many_with_imports(n, pad, 0)
+}
+
+/// the same with `imports` imported functions in front (each called once by the first function, so
+/// that they survive a GC run)
+pub fn many_with_imports(n: usize, pad: usize, imports: usize) -> Vec<u8> {
     use wasm_encoder::*;
     let mut m = wasm_encoder::Module::new();
     let mut t = TypeSection::new();
     t.function([], []);
     m.section(&t);
+    if imports > 0 {
+        let mut im = ImportSection::new();
+        for i in 0..imports {
+            im.import("env", &format!("imp{}", i), EntityType::Function(0));
+        }
+        m.section(&im);
+    }
     let mut fs = FunctionSection::new();
     for _ in 0..n {
         fs.function(0);
@@ -252,14 +265,19 @@ pub fn many(n: usize, pad: usize) -> Vec<u8> {
     m.section(&fs);
     let mut ex = ExportSection::new();
     for i in 0..n {
-        ex.export(&format!("__f{}", i), ExportKind::Func, i as u32);
+        ex.export(&format!("__f{}", i), ExportKind::Func, (imports + i) as u32);
     }
     m.section(&ex);
     let mut code = CodeSection::new();
     for i in 0..n {
         let mut f = Function::new([]);
         // body bytes: 1 (locals count) + 3 per const/drop pair (small const) + 1 (end)
-        let pairs = if i == 0 { pad.saturating_sub(2) / 3 } else { i % 3 };
+        let pairs = if i == 0 { pad.saturating_sub(2 + 2 * imports) / 3 } else { i % 3 };
+        if i == 0 {
+            for k in 0..imports {
+                f.instruction(&Instruction::Call(k as u32));
+            }
+        }
         for k in 0..pairs {
             f.instruction(&Instruction::I32Const((k % 60) as i32));
             f.instruction(&Instruction::Drop);
@@ -301,6 +319,15 @@ pub fn main(seed: u64, tier: &str, only: Option<&str>) {
         let wasm = many(*nf, *pad);
         for v in [Variant::Unchanged, Variant::Inserted] {
             run_case(&format!("many{}-{:?}", k, v), &wasm, v, &mut stats);
+        }
+    }
+    // the same boundaries with imported functions in front of the local ones (the function index
+    // space is then larger than the code section's entry count)
+    let ishapes: &[(usize, usize, usize)] = if tier == "thorough" { &[(125, 10, 3), (126, 10, 3), (127, 10, 3), (127, 10, 1), (128, 10, 2), (2, 127, 2), (16382, 4, 3)] } else { &[(126, 10, 3), (127, 10, 1), (2, 127, 2)] };
+    for (k, (nf, pad, ni)) in ishapes.iter().enumerate() {
+        let wasm = many_with_imports(*nf, *pad, *ni);
+        for v in [Variant::Unchanged, Variant::Inserted, Variant::Gc] {
+            run_case(&format!("imany{}-{:?}", k, v), &wasm, v, &mut stats);
         }
     }
     out::stat("offsets.cases", stats.cases);
